@@ -31,7 +31,7 @@ const (
 	opRemoveDisconnected
 	opClean
 	opAdvance
-	opFill // macro: k gossip destinations inside one routing prefix
+	opFill  // macro: k gossip destinations inside one routing prefix
 	opMulti // macro: several route additions in a row
 )
 
@@ -891,6 +891,7 @@ func TestC11(t *testing.T) {
 	}
 	scs := scenarios()
 	sort.SliceStable(scs, func(i, j int) bool { return false })
+	runTableSched(t, rep, env)
 	for _, sc := range scs {
 		explore(t, rep, env, sc)
 	}
